@@ -464,7 +464,7 @@ func c04r5(r *R) {
 	r.check(good, "handleMartianErrorStatus", ms.Pos(), "→ the error's own status", "martian.ErrorStatus is not mapped to its status")
 	// sentinel types
 	for name, typ := range map[string]string{"ErrProxyLocalhost": "forwarder.denyError", "ErrProxyDenied": "forwarder.denyError", "ErrProxyOutsideAllowedTimeframe": "forwarder.prohibitedError", "ErrProxyAuthentication": "*errors.errorString"} {
-		g, _ := r.pkg(".").Members[name].(*ssa.Global)
+		g, _ := refGlobal(r.pkg("."), name), true
 		if g == nil {
 			r.bad("sentinel "+name, r.pkg(".").Func("init").Pos(), "sentinel error missing")
 			continue
@@ -489,7 +489,27 @@ func c04r5(r *R) {
 	}
 	okPA := setPA != nil && guardedBy(setPA.Block(), func(s string) bool { return strings.HasSuffix(s, " == 407)") && !strings.HasPrefix(s, "!") }) && strings.HasPrefix(describe(refArgs(setPA.Common())[2]), `fmt.Sprintf("Basic realm=%q"`)
 	r.check(okPA, "errorResponse#challenge", er.Pos(), "Proxy-Authenticate: Basic realm=… set iff the status is 407", "the 407 response does not get a Basic challenge (or it is set for other statuses)")
-	okEH := setEH != nil && !escapesFromEntry(er, setEH)
+	okEH := false
+	if setEH != nil {
+		// set on every path of errorResponse - also when the response is built by a helper split out of it: then on
+		// every path of the helper, and the helper is called on every path
+		okEH = true
+		var at ssa.Instruction = setEH
+		for i := 0; at.Parent() != er && i < 4; i++ {
+			if escapesFromEntry(at.Parent(), at) {
+				okEH = false
+			}
+			cs := soleCallSite(at.Parent())
+			if cs == nil {
+				okEH = false
+				break
+			}
+			at = cs
+		}
+		if okEH && (at.Parent() != er || escapesFromEntry(er, at)) {
+			okEH = false
+		}
+	}
 	r.check(okEH, "errorResponse#error-header", er.Pos(), "X-Forwarder-Error set on every path", "X-Forwarder-Error is not set on every error response")
 	handlers := errorHandlerList(r, er)
 	have := strings.Join(handlers, ",")
